@@ -186,6 +186,7 @@ func judgeBinder(c *BinderCase) (sig, msg string, trace []BinderObs, classes []s
 	prev := s.Snapshot().Requests[key]
 	wasTerminal := terminal(prev.Phase, prev.Attempts, c.Backoff)
 	succeeded := false
+	prevNode := s.Snapshot().Pods[key].Node
 	reported := int32(0) // failed attempts whose failure could be reported (no crash, status patch and request read not hit)
 	failedRuns := 0
 	for si, st := range c.Steps {
@@ -290,7 +291,15 @@ func judgeBinder(c *BinderCase) (sig, msg string, trace []BinderObs, classes []s
 			return fail("binder-attempts-over-limit", "step %d: stored failedAttempts=%d exceeds backoffLimit=%d", si, cur.Attempts, *c.Backoff)
 		}
 		bound := o.PodNode != ""
-		attemptFailed := !bound && !succeeded && (err != nil || contains(marks, "bind-failed"))
+		// A reconcile that fails before it has read the pod (the read of the pod or an earlier call failed) cannot
+		// know that an earlier reconcile, whose status write was lost, already bound the pod: the controller counts
+		// and reports it like any failed attempt, and the next reconcile that does read the pod ends in Succeeded
+		// (unless the count is used up, where the scheduler deletes the request of a pod it sees bound).
+		blind := bound && prevNode != "" && err != nil && !o.BindEntered
+		attemptFailed := !succeeded && ((!bound && (err != nil || contains(marks, "bind-failed"))) || blind)
+		if blind {
+			cls["failed-before-reading-already-bound-pod"] = true
+		}
 		canReport := !o.Crashed && !o.StatusFault && !o.ReqFault
 		if attemptFailed {
 			failedRuns++
@@ -315,7 +324,7 @@ func judgeBinder(c *BinderCase) (sig, msg string, trace []BinderObs, classes []s
 		}
 		// (d) success: bound pod, Succeeded (unless the status patch was the failed call), exactly one binding
 		if bound && !succeeded {
-			if canReport && cur.Phase != "Succeeded" {
+			if canReport && !blind && !(wasTerminal && cur.Phase == "Failed") && cur.Phase != "Succeeded" {
 				return fail("binder-bound-not-succeeded", "step %d: the pod is bound but the stored request is %q", si, cur.Phase)
 			}
 			if cur.Phase == "Succeeded" {
@@ -347,6 +356,7 @@ func judgeBinder(c *BinderCase) (sig, msg string, trace []BinderObs, classes []s
 		}
 		wasTerminal = nowTerminal
 		prev = cur
+		prevNode = o.PodNode
 	}
 	if failedRuns >= 2 {
 		cls["failed-attempts>=2"] = true
